@@ -192,6 +192,21 @@ def F18_from_lists_plain_dataframe():
     r = NestedFrame.from_lists(df, base_columns=["k"], name="n")
     return isinstance(r, NestedFrame), type(r).__name__
 
+
+@case
+def F19_flat_values_alias_callers_numpy_memory():
+    nf = NestedFrame({"x": [1, 2]}, index=[0, 1]).add_nested(pd.DataFrame({"a": [1.0, 2.0, 3.0]}, index=[0, 0, 1]), "n")
+    ser = pd.Series(np.array([10.0, 20.0, 30.0]), index=[0, 0, 1])
+    nf["n.g"] = ser
+    arr = np.array([1.0, 2.0, 3.0])
+    s2 = nf["n"].nest.with_flat_field("k", arr)
+    s3 = nf["n"].copy()
+    s3.nest["a"] = arr
+    ser.iloc[0] = 555.0            # the caller goes on with ITS objects
+    arr[1] = -2.0
+    got = (nf["n.g"].tolist(), s2.nest["k"].tolist(), s3.nest["a"].tolist())
+    return got == ([10.0, 20.0, 30.0], [1.0, 2.0, 3.0], [1.0, 2.0, 3.0]), got
+
 if __name__ == "__main__":
     bad = 0
     for k, (ok, d) in R.items():
